@@ -635,6 +635,12 @@ func childAppendKinds(p *Program, in ssa.Instruction, node ssa.Value, fields ...
 	for _, e := range varargElems(call) {
 		al, ok := e.(*ssa.Alloc)
 		if !ok {
+			// a node built by a constructor helper: every result of the helper is one fresh allocation whose kind field
+			// holds one of the helper's parameters; the kind is the constant passed at this call
+			if k, ok := constructorCallKind(p, e); ok {
+				kinds = append(kinds, strings.TrimSuffix(inlineKindName(p, k), "Kind"))
+				continue
+			}
 			kinds = append(kinds, "?")
 			continue
 		}
@@ -1280,4 +1286,52 @@ func astTableSizes(p *Program) (starts, matches int, ok bool) {
 		}
 	}
 	return starts, matches, starts >= 0 && matches >= 0
+}
+
+// constructorCallKind: v is a call of a module function all of whose results are a fresh Inline allocation with the kind
+// field set from one parameter; returns the constant passed for that parameter at this call.
+func constructorCallKind(p *Program, v ssa.Value) (int64, bool) {
+	call, ok := v.(*ssa.Call)
+	if !ok {
+		return 0, false
+	}
+	g := call.Call.StaticCallee()
+	if g == nil || g.Blocks == nil || !p.InModule(g) {
+		return 0, false
+	}
+	pi := -1
+	for _, r := range returnsOf(g) {
+		if len(r.Results) != 1 {
+			return 0, false
+		}
+		al, ok := r.Results[0].(*ssa.Alloc)
+		if !ok || typeName(deref(al.Type())) != "Inline" {
+			return 0, false
+		}
+		ks := allocKindValues(al)
+		if len(ks) != 1 {
+			return 0, false
+		}
+		idx := -1
+		for i, q := range g.Params {
+			if ssa.Value(q) == ks[0] {
+				idx = i
+			}
+		}
+		if idx < 0 || (pi >= 0 && pi != idx) {
+			return 0, false
+		}
+		pi = idx
+	}
+	if pi < 0 || pi >= len(call.Call.Args) {
+		return 0, false
+	}
+	set, known := constSetOf(p, call.Call.Args[pi])
+	if !known || len(set) != 1 {
+		return 0, false
+	}
+	for k := range set {
+		return k, true
+	}
+	return 0, false
 }
